@@ -289,6 +289,8 @@ fn counts_for(prop: &str, v: &world::Violation, subject: SubjectKind) -> bool {
         }
         "C02" => matches!(subject, FUB | FU | FOB | FO) && v.property == "C04" && o == "out-of-order",
         "C11" => matches!(subject, MB | MU) && v.property == "C02",
+        // the observer contract covers every is_terminated the crate offers
+        "C15" => v.property == "C10" && o == "terminated-early",
         _ => false,
     }
 }
